@@ -5,11 +5,14 @@ import (
 	"database/sql"
 	"fmt"
 	"io"
+	"os"
+	"path/filepath"
 	"sort"
 	"strings"
 	"time"
 
 	"github.com/wrgl/wrgl/pkg/ref"
+	reffs "github.com/wrgl/wrgl/pkg/ref/fs"
 
 	"verif/mc"
 	"verif/stores"
@@ -45,6 +48,7 @@ type c15group struct {
 	remotes  []string // for ListRemoteRefs
 	ops      []c15op
 	prelude  []c15op // run on the fresh store (and the model) before every trace: a non-initial start state
+	backend  *c15backend // nil = SQL
 }
 
 func c15clone(b []byte) []byte { return append([]byte{}, b...) }
@@ -94,6 +98,9 @@ func c15setWithLogOp(n string, v []byte, tag string) c15op {
 func c15deleteOp(n string) c15op {
 	return c15op{name: fmt.Sprintf("Delete(%s)", n), run: func(s ref.Store, m *c15model) string {
 		if err := s.Delete(n); err != nil {
+			if _, ok := m.refs[n]; !ok {
+				return "" // deleting an absent name may be refused (file store); the observers check nothing changed
+			}
 			return "Delete returned " + err.Error()
 		}
 		delete(m.refs, n)
@@ -124,6 +131,7 @@ func c15renameOp(o, n string) c15op {
 				if len(m.logs[n]) == 0 {
 					delete(m.logs, n)
 				}
+				return "RESYNC-LOG:" + n
 			}
 		default:
 			if err != nil {
@@ -157,6 +165,7 @@ func c15copyOp(src, dst string) c15op {
 				if len(m.logs[dst]) == 0 {
 					delete(m.logs, dst)
 				}
+				return "RESYNC-LOG:" + dst
 			}
 		default:
 			if err != nil {
@@ -281,9 +290,17 @@ func c15observe(s ref.Store, m *c15model, g *c15group) string {
 			r.Close()
 		}
 	}
+	// the file store implements Filter / FilterKey for one prefix that ends at a path separator and no exclusion
+	fsMode := g.backend != nil && g.backend.fs
 	nots := append([]string{""}, g.prefixes...)
 	for _, p := range g.prefixes {
+		if fsMode && p != "" && !strings.HasSuffix(p, "/") {
+			continue
+		}
 		for ni, np := range nots {
+			if fsMode && ni > 0 {
+				break
+			}
 			var ps, nps []string
 			if p != "" {
 				ps = []string{p}
@@ -327,7 +344,7 @@ func c15observe(s ref.Store, m *c15model, g *c15group) string {
 		}
 	}
 	// two prefixes at once, in both orders, without and with an exclusion drawn from either prefix's subtree
-	if len(g.prefixes) >= 3 {
+	if len(g.prefixes) >= 3 && !fsMode {
 		np := len(g.prefixes)
 		if np > 5 {
 			np = 5
@@ -399,6 +416,9 @@ func c15observe(s ref.Store, m *c15model, g *c15group) string {
 		}
 		if d := c15mapDiff(all, m.refs); d != "" {
 			return "ListAllRefs: " + d
+		}
+		if fsMode {
+			return ""
 		}
 		loc, err := ref.ListLocalRefs(s, nil, nil)
 		if err != nil {
@@ -488,8 +508,85 @@ func c15dump(db *sql.DB) (string, *c15model, error) {
 	return sb.String(), m, nil
 }
 
-func c15exec(g *c15group, trace []int) (key, class, vio string) {
+// c15backend opens a fresh store; dump returns the observable implementation state as a key and as a model.
+type c15backend struct {
+	name string
+	fs   bool
+	open func() (s ref.Store, dump func() (string, *c15model, error), done func())
+}
+
+var c15sqlBackend = &c15backend{name: "sql", open: func() (ref.Store, func() (string, *c15model, error), func()) {
 	s, db, done := stores.NewMemRefStore()
+	return s, func() (string, *c15model, error) { return c15dump(db) }, done
+}}
+
+var c15fsSeq int64
+
+// the file store on a private directory under /dev/shm (or TMPDIR); the state is every file under refs/ and logs/
+var c15fsBackend = &c15backend{name: "fs", fs: true, open: func() (ref.Store, func() (string, *c15model, error), func()) {
+	base := os.Getenv("VERIF_SHM")
+	if base == "" {
+		if st, err := os.Stat("/dev/shm"); err == nil && st.IsDir() {
+			base = "/dev/shm"
+		} else {
+			base = os.TempDir()
+		}
+	}
+	dir, err := os.MkdirTemp(base, "verif-c15fs-")
+	if err != nil {
+		panic("mc: infrastructure: " + err.Error())
+	}
+	s := reffs.NewStore(dir)
+	return s, func() (string, *c15model, error) { return c15dumpFS(dir) }, func() { os.RemoveAll(dir) }
+}}
+
+// c15dumpFS reads the directory tree itself (not through the store): ref files and raw log files.
+func c15dumpFS(dir string) (string, *c15model, error) {
+	var sb strings.Builder
+	m := &c15model{refs: map[string][]byte{}, logs: map[string][]c15log{}}
+	for _, sub := range []string{"refs", "logs"} {
+		root := filepath.Join(dir, sub)
+		var files []string
+		filepath.Walk(root, func(p string, info os.FileInfo, err error) error {
+			if err == nil && !info.IsDir() {
+				files = append(files, p)
+			}
+			return nil
+		})
+		sort.Strings(files)
+		for _, p := range files {
+			b, err := os.ReadFile(p)
+			if err != nil {
+				return "", nil, err
+			}
+			n := filepath.ToSlash(strings.TrimPrefix(p, root+string(filepath.Separator)))
+			if sub == "refs" {
+				fmt.Fprintf(&sb, "%s=%x;", n, b)
+				m.refs[n] = b
+				continue
+			}
+			for i, line := range strings.Split(string(b), "\n") {
+				if line == "" {
+					continue
+				}
+				rec := &ref.Reflog{}
+				if _, err := rec.Read([]byte(line)); err != nil {
+					return "", nil, fmt.Errorf("log file of %s line %d: %v", n, i, err)
+				}
+				fmt.Fprintf(&sb, "L %s#%d %x>%x;", n, i, rec.OldOID, rec.NewOID)
+				m.logs[n] = append(m.logs[n], c15log{rec.OldOID, rec.NewOID})
+			}
+		}
+	}
+	return sb.String(), m, nil
+}
+
+func c15exec(g *c15group, trace []int) (key, class, vio string) {
+	be := g.backend
+	if be == nil {
+		be = c15sqlBackend
+	}
+	s, dump, done := be.open()
 	defer done()
 	m := &c15model{refs: map[string][]byte{}, logs: map[string][]c15log{}}
 	desc := func(i int) string {
@@ -512,11 +609,27 @@ func c15exec(g *c15group, trace []int) (key, class, vio string) {
 	for i, op := range trace {
 		msg := g.ops[op].run(s, m)
 		if msg == "RESYNC" {
-			_, mm, err := c15dump(db)
+			_, mm, err := dump()
 			if err != nil {
 				return "", "error", err.Error()
 			}
 			m = mm
+			msg = ""
+		}
+		if strings.HasPrefix(msg, "RESYNC-LOG:") {
+			// what the destination's log holds after an overwrite is store-specific on the file store only
+			if be.fs {
+				n := msg[len("RESYNC-LOG:"):]
+				_, mm, err := dump()
+				if err != nil {
+					return "", "error", err.Error()
+				}
+				if l, ok := mm.logs[n]; ok {
+					m.logs[n] = l
+				} else {
+					delete(m.logs, n)
+				}
+			}
 			msg = ""
 		}
 		if msg != "" {
@@ -530,7 +643,7 @@ func c15exec(g *c15group, trace []int) (key, class, vio string) {
 			}
 		}
 	}
-	k, _, err := c15dump(db)
+	k, _, err := dump()
 	if err != nil {
 		return "", "error", err.Error()
 	}
@@ -621,6 +734,53 @@ func c15groupLongLogs() *c15group {
 	return g
 }
 
+// File store: names without a ref that is also a directory of another ref (a file system cannot hold both,
+// as in git); logged updates go through ref.SaveRef, which supplies the old value (the file store writes the
+// entry it is handed). The second group starts from logs longer than the backward scanner's 1024-byte window.
+func c15groupFS() *c15group {
+	g := &c15group{
+		backend:  c15fsBackend,
+		names:    []string{"heads/a", "heads/A", "heads/a_b", "heads/a%", "heads/ab", "heads/n/b", "remotes/o/x", "remotes/o_/x", "remotes/o/f/x", "remotes/n/x"},
+		prefixes: []string{"", "heads/", "heads/n/", "remotes/", "remotes/o/", "remotes/o_/", "remotes/o/f/"},
+		remotes:  []string{"o", "o_", "n", "O"},
+	}
+	for _, n := range []string{"heads/a", "heads/A", "heads/a%", "heads/n/b", "remotes/o/f/x"} {
+		g.ops = append(g.ops, c15setOp(n, c15v1, "v1"))
+	}
+	for _, n := range []string{"heads/a", "heads/a_b", "remotes/o/x", "remotes/o_/x"} {
+		g.ops = append(g.ops, c15saveRefOp(n, c15v1, "v1"))
+	}
+	g.ops = append(g.ops, c15saveRefOp("heads/a", c15v2, "v2"), c15saveRefOp("remotes/o/x", c15v2, "v2"))
+	for _, n := range []string{"heads/a", "heads/a_b", "heads/n/b", "remotes/o/x"} {
+		g.ops = append(g.ops, c15deleteOp(n))
+	}
+	g.ops = append(g.ops, c15renameOp("heads/a", "heads/ab"), c15renameOp("heads/a_b", "heads/n/b"), c15renameOp("heads/a", "heads/A"),
+		c15copyOp("heads/a", "heads/ab"), c15copyOp("heads/a_b", "heads/a%"), c15copyOp("remotes/o/x", "remotes/n/x"),
+		c15deleteAllRemoteOp("o"), c15deleteAllRemoteOp("o_"), c15renameAllRemoteOp("o", "n"), c15renameAllRemoteOp("o_", "n"))
+	return g
+}
+
+func c15groupFSLongLogs() *c15group {
+	g := &c15group{
+		backend:  c15fsBackend,
+		names:    []string{"heads/a", "heads/a_b", "heads/axb", "heads/a%", "heads/ab"},
+		prefixes: []string{"", "heads/"},
+	}
+	vals := [][]byte{c15v1, c15v2}
+	tags := []string{"v1", "v2"}
+	for i := 0; i < 23; i++ {
+		g.prelude = append(g.prelude, c15saveRefOp("heads/a_b", vals[i%2], tags[i%2]))
+	}
+	for i := 0; i < 9; i++ {
+		g.prelude = append(g.prelude, c15saveRefOp("heads/a", vals[i%2], tags[i%2]))
+	}
+	g.ops = append(g.ops, c15saveRefOp("heads/a_b", c15v2, "v2"), c15saveRefOp("heads/a", c15v2, "v2"),
+		c15deleteOp("heads/a_b"), c15deleteOp("heads/a"),
+		c15renameOp("heads/a_b", "heads/axb"), c15renameOp("heads/a", "heads/a%"),
+		c15copyOp("heads/a_b", "heads/a%"), c15copyOp("heads/a", "heads/ab"), c15setOp("heads/a_b", c15v1, "v1"), c15setOp("heads/ab", c15v1, "v1"))
+	return g
+}
+
 func c15harness(name string, g *c15group, depth map[string]int) *mc.Harness {
 	spec := func(d int) *mc.BFSSpec {
 		return &mc.BFSSpec{
@@ -661,6 +821,8 @@ func init() {
 			c15harness("bfs-sql-heads", c15groupHeads(), map[string]int{"quick": 4, "thorough": 6}),
 			c15harness("bfs-sql-remotes", c15groupRemotes(), map[string]int{"quick": 4, "thorough": 6}),
 			c15harness("bfs-sql-long-logs", c15groupLongLogs(), map[string]int{"quick": 3, "thorough": 5}),
+			c15harness("bfs-fs", c15groupFS(), map[string]int{"quick": 3, "thorough": 5}),
+			c15harness("bfs-fs-long-logs", c15groupFSLongLogs(), map[string]int{"quick": 3, "thorough": 5}),
 		},
 	})
 }
